@@ -194,6 +194,10 @@ func (C19) Generate(c *Ctx, r *Rand, index int) *Scenario {
 		lay := LayoutOf(sc.Files, "yaml")
 		d := Pick(rf, lay)
 		sc.Meta["bad_id"] = d.ID
+		// the other half of the expression must not touch what the failing half selects by
+		e = GenExprWhere(r.Fork("expr-ro"), func(e Expr) bool {
+			return !e.Mutating && !strings.Contains(e.Family, "error") && !strings.Contains(e.Family, "splitdoc") && !strings.Contains(e.Family, "literal")
+		})
 		// an operation that fails only on the selected document (`error` fires on an empty context too)
 		fail := Pick(rf, []string{"(.id - 1)", "(.id | to_number)", "(.id | keys)", "(.id | from_unix)"})
 		expr := "(" + e.Combined() + "), (select(.id == \"" + d.ID + "\") | " + fail + ")"
